@@ -33,23 +33,76 @@ let () =
           let (lines, f, l) = parse_snap t0 in
           let st = ref { l_lines = lines; l_first = f; l_last = l } in
           let verdict = ref "" and nops = ref 0 and nsnap = ref 0 in
+          (* the pointer-level model (Model/LinePtrModel.v), replayed over the same events and compared with the Q snapshots *)
+          let rec nat_of_int i = if i <= 0 then O else S (nat_of_int (i - 1)) in
+          let rec int_of_nat = function O -> 0 | S n -> 1 + int_of_nat n in
+          let popt x = let v = int_of_string x in if v < 0 then None else Some (nat_of_int v) in
+          let pshow = function None -> "-1" | Some n -> string_of_int (int_of_nat n) in
+          let marks = ref [] and pst = ref None and pverdict = ref "" and psnaps = ref 0 in
+          let parse_q tok =
+            let body = String.sub tok 1 (String.length tok - 1) in
+            (match split '/' body with
+             | [links; ends] ->
+               let prs = List.map (fun x -> match split '.' x with [a; b] -> (popt a, popt b) | _ -> (None, None)) (List.filter (fun x -> x <> "") (split ',' links)) in
+               (match split '.' ends with
+                | [f; l] -> Some { p_next = List.map fst prs; p_prev = List.map snd prs; p_first = popt f; p_last = popt l }
+                | _ -> None)
+             | _ -> None) in
+          let qshow s = "Q" ^ String.concat "," (List.map2 (fun a b -> pshow a ^ "." ^ pshow b) s.p_next s.p_prev) ^ "/" ^ pshow s.p_first ^ "." ^ pshow s.p_last in
+          (* the control of justify over m_dir: expected reversal skeleton per call, checked against the recorded events *)
+          let dword = ref None and fdir = ref false and bidi = ref false and jpass = ref false in
+          let jtoks = ref [] and injust = ref false in
+          let rec n_of_i i = if i <= 0 then N0 else Npos (pos_of_i i) and pos_of_i i = if i = 1 then XH else if i land 1 = 0 then XO (pos_of_i (i lsr 1)) else XI (pos_of_i (i lsr 1)) in
+          let close_just k =
+            (if !injust then (match !dword with
+               | Some d when !pverdict = "" ->
+                 let got = List.rev !jtoks in
+                 if got <> [] then begin
+                   let exp = just_skeleton d !fdir !bidi in
+                   let okp = if not !jpass then got = exp else
+                     (* justification passes run between the brackets: only the outer decisions are compared *)
+                     (let rec upto l = match l with [] -> [] | false :: _ -> [] | x :: r -> x :: upto r in
+                      upto got = upto exp && upto (List.rev got) = upto (List.rev exp)) in
+                   if not okp then pverdict := Printf.sprintf "CONTROL @tok%d expected=%s got=%s" k (String.concat "" (List.map (fun b -> if b then "r" else "e") exp)) (String.concat "" (List.map (fun b -> if b then "r" else "e") got));
+                   List.iter (fun b -> if b then dword := (match !dword with Some x -> Some (toggle_dir x) | None -> None)) got
+                 end
+               | _ -> ()));
+            injust := false; jtoks := [] in
+          let papp k o = (match !pst with
+                          | Some s when !pverdict = "" ->
+                            (match papply !marks s o with
+                             | POk s' -> pst := Some s'
+                             | PNull -> pverdict := Printf.sprintf "NULL @tok%d" k
+                             | PHang -> pverdict := Printf.sprintf "HANG @tok%d" k)
+                          | _ -> ()) in
           List.iteri (fun k tok ->
-            if !verdict = "" then begin
+            begin
               let n = String.length tok in
-              let apply o = (match lapply !st o with
+              let apply o = if !verdict <> "" then () else (match lapply !st o with
                              | LOk s -> st := s; incr nops
                              | LErr LStaleLast -> verdict := Printf.sprintf "STALE-LAST @tok%d" k
                              | LErr _ -> verdict := Printf.sprintf "ERR @tok%d" k) in
-              if tok.[0] = 'L' then begin
-                incr nsnap;
-                if (try ignore (Str.search_forward (Str.regexp_string "CYCLE") tok 0); true with Not_found -> false) then verdict := Printf.sprintf "MISMATCH @tok%d impl-cycle" k
-                else if show !st <> tok then verdict := Printf.sprintf "MISMATCH @tok%d model=%s impl=%s" k (show !st) tok
+              if tok.[0] = 'M' then marks := List.init (n - 1) (fun j -> tok.[j + 1] = '1')
+              else if tok.[0] = 'D' then (match split ',' (String.sub tok 1 (n - 1)) with
+                                          | [d; f; b; jp] -> dword := Some (n_of_i (int_of_string d)); fdir := (f <> "0"); bidi := (b = "1"); jpass := (jp = "1")
+                                          | _ -> ())
+              else if tok.[0] = 'Q' then begin
+                (match !pst with
+                 | None -> pst := parse_q tok
+                 | Some s -> if !pverdict = "" then begin incr psnaps; if qshow s <> tok then pverdict := Printf.sprintf "MISMATCH @tok%d model=%s impl=%s" k (qshow s) tok end)
               end
-              else if n >= 2 && String.sub tok 0 2 = "lb" then apply (LBreak (n_of_int (int_of_string (String.sub tok 2 (n - 2)))))
-              else if n >= 2 && String.sub tok 0 2 = "se" then (match split ',' (String.sub tok 2 (n - 2)) with [a; b] -> apply (LSetEnds (opt a, opt b)) | _ -> ())
-              else if tok.[0] = 'r' then apply (LReverse (if tok = "r-" then [] else List.init (n - 1) (fun j -> tok.[j + 1] = '1')))
-              else if tok.[0] = 'j' then ()
+              else if tok.[0] = 'L' then begin
+                close_just k;
+                if !verdict = "" then begin incr nsnap;
+                if (try ignore (Str.search_forward (Str.regexp_string "CYCLE") tok 0); true with Not_found -> false) then verdict := Printf.sprintf "MISMATCH @tok%d impl-cycle" k
+                else if show !st <> tok then verdict := Printf.sprintf "MISMATCH @tok%d model=%s impl=%s" k (show !st) tok end
+              end
+              else if n >= 2 && String.sub tok 0 2 = "lb" then begin papp k (PBreak (nat_of_int (int_of_string (String.sub tok 2 (n - 2))))); apply (LBreak (n_of_int (int_of_string (String.sub tok 2 (n - 2))))) end
+              else if n >= 2 && String.sub tok 0 2 = "se" then (if !injust then jtoks := false :: !jtoks; match split ',' (String.sub tok 2 (n - 2)) with [a; b] -> papp k (PSetEnds (popt a, popt b)); apply (LSetEnds (opt a, opt b)) | _ -> ())
+              else if tok.[0] = 'r' then begin (if !injust then jtoks := true :: !jtoks); papp k PReverse; apply (LReverse (if tok = "r-" then [] else List.init (n - 1) (fun j -> tok.[j + 1] = '1'))) end
+              else if tok.[0] = 'j' then begin close_just k; injust := true end
               else ()      (* events of justification passes (attach etc.) do not concern the line structure *)
             end) rest;
-          if !verdict = "" then Printf.printf "%s J ok ops=%d snaps=%d\n" id !nops !nsnap else Printf.printf "%s J %s\n" id !verdict))
+          let pv = (match !pst with None -> "none" | Some _ -> if !pverdict = "" then Printf.sprintf "ok snaps=%d" !psnaps else !pverdict) in
+          if !verdict = "" then Printf.printf "%s J ok ops=%d snaps=%d | P %s\n" id !nops !nsnap pv else Printf.printf "%s J %s | P %s\n" id !verdict pv))
   done with End_of_file -> ()
